@@ -376,7 +376,7 @@ pub fn run(ctx: &Ctx) -> i32 {
         tier,
         seed: ctx.seed,
         level: "exploration",
-        rule: "scenario = two real Networks (fixed 5 ms one-way latency, loss-free) with seeded outbound/inbound defaults in {None,0,60ms..60s}, optional user outbound layer; 25-40 sequential RPCs in both directions through Network::rpc / Peer::rpc / Peer as tower Service, awaited in place / polled once and then finished by another task / raced in a select! and then handed to another task, with a seeded timeout header (absent, 0, grid values, u64::MAX, overflowing, negative, non-numeric, padded, 100 digits, non-ASCII) and scripted handler duration (0, grid, never); combinations whose three deadlines are closer than 50 ms are not judged; reference model C=min?(O,h), S=min?(I,h) decides outcome class, exact virtual-time latency (+-3 ms) and handler lifetime; distinct by (which defaults are set, outcome mix)".into(),
+        rule: "scenario = two real Networks (fixed 5 ms one-way latency, loss-free) with seeded outbound/inbound defaults in {None,0,60ms..60s}, optional user outbound layer; 25-40 sequential RPCs in both directions through Network::rpc / Peer::rpc / Peer as tower Service, awaited in place / polled once and then finished by another task / raced in a select! and then handed to another task, with a seeded timeout header (absent, 0, grid values, u64::MAX, overflowing, negative, non-numeric, padded, 100 digits, non-ASCII) and scripted handler duration (0, grid, never); combinations whose three deadlines are closer than 50 ms are not judged; reference model C=min?(O,h), S=min?(I,h) decides outcome class, exact virtual-time latency (+-3 ms) and handler lifetime; distinct by (which defaults are set, outcome mix) Nodes are configured with their builder setters in a key-derived order; half of the user outbound layers are not pass-through but hold each request for 120 ms-1.5 s before forwarding it (the model counts that time against the caller's deadline only).".into(),
         assumptions: vec!["sub-millisecond accuracy is not judged (timer wheel granularity)".into()],
         summary,
         extra: Default::default(),
